@@ -23,6 +23,17 @@ def case_list(seed, count, tier):
         op = rnd.choice(["enum", "enum", "partial", "min", "max"])
         var = rnd.randrange(len(model["idx"]))
         cases.append({"kind": "random", "model": model, "cfg": cfg, "op": op, "var": var, "stop": rnd.randint(1, 4)})
+    # values far from zero (bounds that add up beyond 32 bits, 10^6 offsets): the two modes do their arithmetic on different
+    # integer types (numba promotes to 64 bits, numpy scalars under interpretation stay 32 bits wide) and must still agree
+    far = 0
+    while far < max(6, count // 5):
+        model, tags = gen.gen_model(rnd, {"circuit": 0.0, "gcc_zero_cap": False, "repeat": True, "big": True, "big_p": 1.0})
+        if not (2 <= O.model_points(model) <= 3000):
+            continue
+        cfg = gen.gen_config(rnd, model)
+        cases.append({"kind": "random", "model": model, "cfg": cfg, "op": rnd.choice(["enum", "partial", "min", "max"]),
+                      "var": rnd.randrange(len(model["idx"])), "stop": rnd.randint(1, 4), "far": True})
+        far += 1
     # large planted models (arity up to 14), partially fixed so that the interpreted run stays short: both modes and every
     # history must agree on them too
     from framework.props import bigrun
